@@ -50,6 +50,7 @@ class FnSpec:
     requires: list = field(default_factory=list)  # [ast.expr]
     ensures: list = field(default_factory=list)
     raises: list = field(default_factory=list)  # [(excname, when_ast|None, strict)]
+    raise_ensures: list = field(default_factory=list)  # parallel to raises: ast|None, holds when that exception is raised
     assigns: list = field(default_factory=list)  # [ast.expr]
     invariants: dict = field(default_factory=dict)  # loop ordinal -> [ast.expr]
     decreases: dict = field(default_factory=dict)
@@ -58,6 +59,11 @@ class FnSpec:
     notes: list = field(default_factory=list)
     ghost_body: list = field(default_factory=list)  # lemma body statements
     options: dict = field(default_factory=dict)
+
+    @property
+    def unit(self):
+        """name of the verification unit (a function, or one statement of it)"""
+        return self.name + ("@" + self.options["stmt"] if self.options.get("stmt") else "")
 
 
 class Module:
@@ -103,7 +109,7 @@ class Module:
             return self.sort_of(ast.parse(node.value, mode="eval").body)
         if isinstance(node, ast.Name):
             n = node.id
-            base = {"Int": S.TInt, "Bool": S.TBool, "Real": S.TReal, "Str": S.TStr, "Val": S.TVal, "Ref": S.TRef(None)}
+            base = {"Int": S.TInt, "Bool": S.TBool, "Real": S.TReal, "Str": S.TStr, "Val": S.TVal, "Ref": S.TRef(None), "Exc": S.TExc}
             if n in base:
                 return base[n]
             if n in self.sort_aliases:
@@ -281,14 +287,17 @@ def _load_fn(m: Module, node: ast.FunctionDef, kind, deco):
         elif fn == "ensures":
             fs.ensures.append(call.args[0])
         elif fn == "raises":
-            when, strict = None, True
+            when, strict, ens = None, True, None
             for kw in call.keywords:
                 if kw.arg == "when":
                     when = kw.value
                 if kw.arg == "strict":
                     strict = _const(kw.value)
+                if kw.arg == "ensures":
+                    ens = kw.value
             en = call.args[0]
             fs.raises.append((ast.unparse(en), when, strict))
+            fs.raise_ensures.append(ens)
         elif fn == "assigns":
             fs.assigns += list(call.args)
         elif fn == "invariant":
@@ -317,7 +326,7 @@ def _load_fn(m: Module, node: ast.FunctionDef, kind, deco):
     elif kind == "lemma":
         m.lemmas[name] = fs
     else:
-        m.contracts[name] = fs
+        m.contracts[fs.unit if kind == "contract" else name] = fs
 
 
 # ---- locating repository functions -------------------------------------------------------------
@@ -331,6 +340,30 @@ def parse_repo_file(repo, rel):
         src = open(p).read()
         _src_cache[p] = (src, ast.parse(src, p))
     return _src_cache[p]
+
+
+def locate_stmt(fnode, sel):
+    """sel = "Try#0" / "While#1" ... : the n-th statement of that type in pre-order inside the function"""
+    kind, _, n = sel.partition("#")
+    n = int(n or 0)
+    found = []
+
+    def walk(stmts):
+        for st in stmts:
+            if type(st).__name__ == kind:
+                found.append(st)
+            if isinstance(st, (ast.FunctionDef, ast.AsyncFunctionDef, ast.ClassDef)):
+                continue
+            for fld in ("body", "orelse", "finalbody"):
+                sub = getattr(st, fld, None)
+                if isinstance(sub, list):
+                    walk(sub)
+            if isinstance(st, ast.Try):
+                for h in st.handlers:
+                    walk(h.body)
+
+    walk(fnode.body)
+    return found[n] if n < len(found) else None
 
 
 def locate(repo, rel, qualname):
